@@ -443,12 +443,16 @@ def oracle_c09(case, tb, rec, out):
     out["reach"]["c09_sigchld_deliveries"] = out["reach"].get("c09_sigchld_deliveries", 0) + res["stats"]["sigchld"]
     if res["stats"]["max_batch"] > 1:
         out["reach"]["c09_runs_with_batched_exits"] = out["reach"].get("c09_runs_with_batched_exits", 0) + 1
+    if res["stats"].get("read_races"):
+        out["reach"]["c09_exit_just_before_read_syscall"] = out["reach"].get("c09_exit_just_before_read_syscall", 0) + res["stats"]["read_races"]
     if res["stats"]["lost_candidates"]:
         out["reach"]["c09_exit_at_waitpid_pid_entry"] = out["reach"].get("c09_exit_at_waitpid_pid_entry", 0) + res["stats"]["lost_candidates"]
     r = res["result"]
     if r.get("exception") == "Deadlock":
         dl = r.get("deadlock") or {}
-        if dl.get("reaped_by_pid_wait"):
+        if dl.get("sigchld_taken_by_C_handler_before_the_blocking_read"):
+            key = "C09:child-exit-just-before-the-blocking-read-is-never-noticed"
+        elif dl.get("reaped_by_pid_wait"):
             key = "C09:child-exit-reaped-by-Popen-poll-run-blocks-forever"
         elif dl.get("zombies"):
             key = "C09:unreaped-zombie-run-blocks-forever"
